@@ -47,6 +47,12 @@ TrCopy ==
   /\ cnt' = Put(cnt, Ev.to, cnt[Ev.id])
   /\ On("C11") => Ev.same
 
+\* the original and its deserialized copy taken through the same further updates / the same merge
+TrCont ==
+  /\ IsEv("DCont")
+  /\ On("C11") => (Ev.upd_same /\ Ev.merge_same)
+  /\ UNCHANGED cnt
+
 (* checkpoint after compression: centroid list decoded from serialize(), extremes, grids *)
 TrChk ==
   /\ IsEv("DChk")
@@ -87,7 +93,7 @@ TrLoad ==
 
 TrPanic == IsEv("Panic") /\ FALSE /\ UNCHANGED cnt
 
-TNext == TrRun \/ TrNew \/ TrUpd \/ TrMerge \/ TrCopy \/ TrChk \/ TrLoad \/ TrPanic
+TNext == TrRun \/ TrNew \/ TrUpd \/ TrMerge \/ TrCopy \/ TrCont \/ TrChk \/ TrLoad \/ TrPanic
 TSpec == TInit /\ [][TNext]_tvars
 
 Accepted ==
